@@ -216,8 +216,10 @@ func (x *Exec) valueInstr(fr *frame, st *State, ins ssa.Value, reach Term) Val {
 		a := x.toAddr(base)
 		stt := a.FT.Underlying().(*types.Struct)
 		f := stt.Field(i.Field)
-		na := &Addr{Kind: addrObj, Base: a.Base, Obj: a.Obj, Path: joinPath(a.Path, f.Name()), FT: f.Type()}
-		return Val{T: i.Type(), A: na}
+		na := *a
+		na.Path = joinPath(a.Path, f.Name())
+		na.FT = f.Type()
+		return Val{T: i.Type(), A: &na}
 	case *ssa.Field:
 		sv := x.val(fr, i.X)
 		stt := sv.T.Underlying().(*types.Struct)
@@ -376,6 +378,9 @@ func (x *Exec) binop(op token.Token, a, b Val, ta, tb, tres types.Type, reach Te
 					e = Eq(a.L[0], BVLit(0, 64))
 				}
 			}
+		} else if len(a.L) == 2 && ((a.T != nil && types.IsInterface(a.T)) || (b.T != nil && types.IsInterface(b.T))) {
+			// interfaces: nil-ness is decided by the type tag alone
+			e = And(Eq(a.L[0], b.L[0]), Or(Eq(a.L[0], BVLit(0, 32)), Eq(a.L[1], b.L[1])))
 		} else {
 			e = eqVal(a, b)
 		}
@@ -695,17 +700,24 @@ func (x *Exec) sliceOp(fr *frame, st *State, i *ssa.Slice, reach Term) Val {
 		if !hasHi {
 			hi = n
 		}
-		// the slice aliases the array object: identify its backing store with the object ref
-		id := x.c.App("arrslice_"+typeKey(u.Elem()), SBV(64), a.Base)
-		x.c.Assume(Not(Eq(id, BVLit(0, 64))))
-		// copy current content into the slice element heap so reads see the array values
-		es := shape(arr.Elem())
-		if len(es) == 1 && a.Kind == addrObj {
-			content := x.load(st, a, reach)
-			if len(content.L) == 1 && content.L[0].Sort.IsArr() {
-				key := sliceKey(arr.Elem(), es[0].Path)
-				h := x.heapGet(st, key, SArr(SBV(64), SArr(SBV(64), es[0].Sort)))
-				x.heapSet(st, key, Store(h, id, content.L[0]))
+		// the slice aliases the array object: top-level array objects keep their
+		// elements in the slice heap under arrslice(ref)
+		var id Term
+		if a.Kind == addrObj && a.Path == "" {
+			id = x.arrSliceID(u.Elem(), a.Base)
+			x.c.Assume(Not(Eq(id, BVLit(0, 64))))
+		} else {
+			// array embedded in another object: copy semantics lost (noted)
+			id = x.freshSliceID()
+			x.c.Note("slice of an array field: aliasing with the array not modelled")
+			es := shape(arr.Elem())
+			if len(es) == 1 {
+				content := x.load(st, a, reach)
+				if len(content.L) == 1 && content.L[0].Sort.IsArr() {
+					key := sliceKey(arr.Elem(), es[0].Path)
+					h := x.heapGet(st, key, SArr(SBV(64), SArr(SBV(64), es[0].Sort)))
+					x.heapSet(st, key, Store(h, id, content.L[0]))
+				}
 			}
 		}
 		return Val{T: i.Type(), L: []Term{id, Op("bvsub", SBV(64), hi, lo), Op("bvsub", SBV(64), n, lo)}}
@@ -725,14 +737,21 @@ func (x *Exec) indexAddr(fr *frame, st *State, i *ssa.IndexAddr, reach Term) Val
 				OblPart{NegGoal: And(reach, Not(inb)), NAssume: len(x.c.Assumes), Where: x.pos(i.Pos())}, false)
 		}
 		x.assume(Imp(reach, inb))
-		return Val{T: i.Type(), A: &Addr{Kind: addrElem, SliceID: xv.L[0], Index: idx, FT: u.Elem()}}
+		return Val{T: i.Type(), A: &Addr{Kind: addrElem, SliceID: xv.L[0], Index: idx, ElemT: u.Elem(), FT: u.Elem()}}
 	case *types.Pointer:
 		arr := u.Elem().Underlying().(*types.Array)
-		// element of an array object: model through the slice heap keyed by arrslice(ref)
 		a := x.toAddr(xv)
-		id := x.c.App("arrslice_"+typeKey(u.Elem()), SBV(64), a.Base)
-		_ = arr
-		return Val{T: i.Type(), A: &Addr{Kind: addrElem, SliceID: id, Index: idx, FT: arr.Elem()}}
+		x.nilCheck(fr, xv, reach, i.Pos())
+		if a.Kind == addrObj && a.Path == "" {
+			// element of a top-level array object: slice heap keyed by arrslice(ref)
+			id := x.arrSliceID(u.Elem(), a.Base)
+			return Val{T: i.Type(), A: &Addr{Kind: addrElem, SliceID: id, Index: idx, ElemT: arr.Elem(), FT: arr.Elem()}}
+		}
+		if a.Kind == addrObj && len(shape(arr.Elem())) == 1 {
+			return Val{T: i.Type(), A: &Addr{Kind: addrArrIdx, Base: a.Base, Obj: a.Obj, Path: a.Path, Index: idx, FT: arr.Elem()}}
+		}
+		x.c.Note("element address of a nested array abstracted")
+		return Val{T: i.Type(), L: []Term{x.c.Fresh("elemaddr", SRef)}}
 	}
 	return freshVal(x.c, fr.prefix+"_ia", i.Type())
 }
